@@ -33,7 +33,10 @@ MANIFEST = {
 RULE = ("cases: 1-3 modes drawn from a pool (priorities with ties, game / non-game, use_wait_queue, flavours plain / devices "
         "(counter, timer, event_player) / game devices (shot, variable_player, light_player, counter) / devices with DELAYED "
         "control events in dict form (counter, accrual, shot: enable/disable/reset/restart/advance_events: {ev: 125ms..1s}, "
-        "posted at grid instants 0-3 ticks before a stop / stop event / ball end), game modes whose starting queue event is "
+        "posted at grid instants 0-3 ticks before a stop / stop event / ball end) / devices with their OWN delay manager or "
+        "periodic task (timers incl. timed pauses and every control-event action, sequence-shot timeouts, shot delay "
+        "switches, ball saves: bursts 'start the timer, pause/add/reset, stop the mode inside the pause'; oracle: no device "
+        "event after the mode stopped, no periodic task left), game modes whose starting queue event is "
         "held open across one or two turn ends (ball end; also the game ending first), 0-4 hooks on "
         "lifecycle events (start/stop of any mode, delay / handler / switch handler registered on the mode, wait+clear "
         "later on queue events, priority above or below the mode's own handlers), 3-14 top-level ops (start, stop, start/"
@@ -1063,6 +1066,13 @@ def real_state_line(case, real, q, cal):
         m = re.search(r"@\w+_(m\d)$", str(e[-1]))
         return bool(m) and m.group(1) in snap and any(snap[m.group(1)][:3])
     rdl = [e for e in rdl if not device_timer_of_running_mode(e)]
+
+    def device_handler_of_running_mode(e):
+        """an event handler a mode device registers for itself while it works (e.g. an enabled ball save's ball_drain
+        handler): device-internal, not modelled, while its mode is up; once the mode is idle it counts as left behind"""
+        m = re.search(r"@\w+_(m\d)$", str(e[2]))
+        return bool(m) and m.group(1) in snap and any(snap[m.group(1)][:3])
+    bus = [e for e in bus if not device_handler_of_running_mode(e)]
     line += " | sw=" + sws + " | dl=" + dls
     extra = bus + missing + rsw + msw + rdl + mdl
     if extra:
